@@ -282,7 +282,20 @@ pub fn tiled_unit_content(r: &mut Rng) -> Content {
 }
 
 fn gen_job(r: &mut Rng, max_len: usize) -> EncJob {
-    let content = match r.below(11) {
+    let content = match r.below(12) {
+        11 => {
+            // an incompressible unit of a threshold size tiled a few times: the block stays compressed (everything after the
+            // first unit is one match) while its literals - exactly the unit - are stored raw: every size class of the
+            // raw-literals header (5 / 12 / 20 bits) and of the compressed-literals header at its boundaries
+            let u = *r.pick(&[30usize, 31, 32, 33, 1023, 1024, 1025, 4094, 4095, 4096, 4097, 16383, 16384, 16385, 65535, 65536]);
+            let reps = r.urange(2, 5);
+            let unit = if r.chance(3, 4) { Content::Random { len: u, seed: r.next_u64() } } else { Content::Alphabet { symbols: *r.pick(&[200u16, 256]), len: u, seed: r.next_u64() } };
+            let mut parts = vec![Content::Tile { base: Box::new(unit), len: (u * reps).min(B) }];
+            if r.chance(1, 3) {
+                parts.push(Content::Markov { len: r.urange(1, 3000), seed: r.next_u64() });
+            }
+            Content::Concat(parts)
+        }
         10 => {
             // consecutive blocks over alphabets of the same size and shape whose members are shifted by one (table reuse
             // meets a byte value the remembered table has no code for, below or above its range)
